@@ -5,6 +5,7 @@ Packetisation-independence of the unit bytes; completeness test of PAT/PMT units
 import Astits.Spec.RefMux
 import Astits.Proofs.Units
 import Astits.Props.C07
+import Astits.Proofs.PSIComplete
 namespace Astits.C02
 open Spec
 
@@ -132,5 +133,180 @@ example : ChainOK [] [⟨exPk 14 true, [exPk 15 false]⟩, ⟨exPk 0 true, [exPk
   · intro u hu
     simp at hu
     rcases hu with rfl | rfl <;> simp [unitOnPID, UnitPk.packets, exPk]
+
+/-! ## PSI side: a PAT/PMT unit is flushed by the packet that carries its last section byte
+
+`accAdd` flushes the queue of a table PID (`pid == 0 || pm.has pid`) as soon as `isPSIComplete` holds. E1 says exactly
+when it holds on the prefixes of a unit, E2 what the accumulator therefore does with the unit's packets, E3 what the
+flushed group parses to. Helper lemmas: `Proofs/PSIComplete.lean`; the lifting to `NextData` is in `Props/C02b.lean`. -/
+
+section PSISide
+open PSIComplete PSIRT
+
+/-- **E1 — the completeness test, exactly.** Let `u = [ptr] ++ filler ++ secs.flatten ++ stuffing` be a PSI unit:
+`ptr` filler bytes, at least one section image (3-byte header, a table id that does not stop the parsing, 12-bit
+section_length = number of bytes that follow), 0xFF stuffing. On the first `n` bytes of `u` the test answers true
+exactly when `n` reaches the end of the last section — or when `n` is the offset at which the first, second, … but
+not the last section ends: there the bytes seen so far look like a complete unit (the packet-edge case that
+ISO/IEC 13818-1 2.4.4.1 excludes: a packet in which a section starts carries a pointer_field). -/
+theorem complete_iff (ptr : Nat) (filler stuffing : Bytes) (secs : List Bytes) (hfl : filler.length = ptr)
+    (hs : ∀ s ∈ secs, SecImage s) (hne : secs ≠ []) (hst : ∀ b ∈ stuffing, b = 0xff) (n : Nat) :
+    isPSICompleteBytes (([ptr] ++ filler ++ secs.flatten ++ stuffing).take n) = true ↔
+      (1 + ptr + secs.flatten.length ≤ n ∨
+        ∃ k, 0 < k ∧ k < secs.length ∧ n = 1 + ptr + (secs.take k).flatten.length) :=
+  PSIComplete.complete_iff ptr filler stuffing secs hfl hs hne hst n
+
+/-- non-vacuity: pointer_field 1, one filler byte, a 5-byte and a 4-byte section, two stuffing bytes -/
+example : ([7] : Bytes).length = 1 ∧ (∀ s ∈ ([[0, 0xb0, 2, 9, 9], [2, 0x30, 1, 7]] : List Bytes), SecImage s) ∧
+    ([[0, 0xb0, 2, 9, 9], [2, 0x30, 1, 7]] : List Bytes) ≠ [] ∧ ∀ b ∈ ([0xff, 0xff] : Bytes), b = 0xff := by
+  refine ⟨rfl, ?_, by simp, by simp⟩
+  intro s hs
+  simp only [List.mem_cons, List.not_mem_nil, or_false] at hs
+  rcases hs with rfl | rfl
+  · exact ⟨0, 0xb0, 2, [9, 9], rfl, by decide, by decide⟩
+  · exact ⟨2, 0x30, 1, [7], rfl, by decide, by decide⟩
+
+/-- … on which the test is false one byte before the end of the last section, true from there on, and true at the
+inner section boundary (offset 7) although the second section has not arrived -/
+example : (List.range 14).map (fun n => isPSICompleteBytes (([1, 7, 0, 0xb0, 2, 9, 9, 2, 0x30, 1, 7, 0xff, 0xff] : Bytes).take n))
+    = [false, false, false, false, false, false, false, true, false, false, false, true, true, true] := by decide +kernel
+
+/-- **E2 — early flush at the right packet.** A unit of a table PID (start packet with the unit-start flag,
+continuation packets, counters running on, no discontinuity) is split as `a ++ [pk] ++ b` where `pk` is the packet
+in which the last section byte arrives. If none of the packet edges inside `a` is the start of a later section
+(conformant cut points), then: the unit start flushes the previous queue `q` (nothing at all when `a = []`: then `q`
+is dropped), the other packets of `a` flush nothing, `pk` flushes exactly `a ++ [pk]`, and the stuffing-only packets
+`b` (at most 256 bytes of them) flush nothing and stay queued as a group without a start packet. -/
+theorem table_unit_flushed (pm : ProgramMap) (pid : Nat) (htab : (pid == 0 || pm.has pid) = true) (q : List Packet)
+    (u : UnitPk) (hu : UnitOK u) (hq : QueueLeadsTo q u.first.header.continuityCounter)
+    (a : List Packet) (pk : Packet) (b : List Packet) (hsplit : u.packets = a ++ [pk] ++ b)
+    (ptr : Nat) (filler : Bytes) (secs : List Bytes) (stuffing : Bytes)
+    (L : UnitLayout (concatPayload u.packets) ptr filler secs stuffing)
+    (hbefore : (concatPayload a).length < 1 + ptr + secs.flatten.length)
+    (hat : 1 + ptr + secs.flatten.length ≤ (concatPayload (a ++ [pk])).length)
+    (hcut : ConformantCut a ptr secs) (htail : (concatPayload b).length ≤ 256) :
+    accRun pm pid q u.packets =
+      ((if a = [] then [] else q :: List.replicate (a.length - 1) []) ++ [a ++ [pk]] ++ List.replicate b.length [], b) :=
+  table_unit_run pm pid htab q u hu hq a pk b hsplit ptr filler secs stuffing L hbefore hat hcut htail
+
+/-- from an empty queue: nothing is flushed before `pk` -/
+theorem table_unit_flushed_fresh (pm : ProgramMap) (pid : Nat) (htab : (pid == 0 || pm.has pid) = true)
+    (u : UnitPk) (hu : UnitOK u)
+    (a : List Packet) (pk : Packet) (b : List Packet) (hsplit : u.packets = a ++ [pk] ++ b)
+    (ptr : Nat) (filler : Bytes) (secs : List Bytes) (stuffing : Bytes)
+    (L : UnitLayout (concatPayload u.packets) ptr filler secs stuffing)
+    (hbefore : (concatPayload a).length < 1 + ptr + secs.flatten.length)
+    (hat : 1 + ptr + secs.flatten.length ≤ (concatPayload (a ++ [pk])).length)
+    (hcut : ConformantCut a ptr secs) (htail : (concatPayload b).length ≤ 256) :
+    accRun pm pid [] u.packets = (List.replicate a.length [] ++ [a ++ [pk]] ++ List.replicate b.length [], b) := by
+  rw [table_unit_flushed pm pid htab [] u hu (Or.inl rfl) a pk b hsplit ptr filler secs stuffing L hbefore hat hcut htail]
+  cases a with
+  | nil => rfl
+  | cons p r => simp [List.replicate_succ]
+
+/-- the excluded cut points: when a packet edge is the start of a later section, the packets up to that edge are
+flushed there — the unit is handed over in pieces (the second piece has no pointer_field) -/
+theorem inner_boundary_flushes_early (u : UnitPk) (x y : List Packet) (hsplit : u.packets = x ++ y)
+    (ptr : Nat) (filler : Bytes) (secs : List Bytes) (stuffing : Bytes)
+    (L : UnitLayout (concatPayload u.packets) ptr filler secs stuffing)
+    (k : Nat) (hk : 0 < k) (hkl : k < secs.length)
+    (hedge : (concatPayload x).length = 1 + ptr + (secs.take k).flatten.length) :
+    isPSIComplete x = true :=
+  (complete_group L x y (by rw [hsplit])).mpr (Or.inr ⟨k, hk, hkl, hedge⟩)
+
+/-- what becomes of the stuffing-only group `b`: it yields no data and no error when it is handed to `parseData` … -/
+theorem stuffing_group_no_data (pm : ProgramMap) (pid : Nat) (htab : (pid == 0 || pm.has pid) = true)
+    (g : List Packet) (hpid : (g.headD default).header.pid = pid)
+    (hl : 0 < (concatPayload g).length) (h : ∀ b ∈ concatPayload g, b = 0xff) :
+    parseData g .none pm = .ok [] :=
+  parseData_stuffing pm pid htab g hpid hl h
+
+/-- … which happens at the next unit start, unless that start packet is a complete unit by itself: then the group is
+dropped without being parsed -/
+theorem stuffing_group_at_next_start (pm : ProgramMap) (pid : Nat) (g : List Packet) (p : Packet)
+    (htab : (pid == 0 || pm.has pid) = true) (hp : PlainPayload p) (hpusi : p.header.payloadUnitStartIndicator = true)
+    (hq : QueueLeadsTo g p.header.continuityCounter) :
+    accAdd pm pid g p = if isPSIComplete [p] then ([p], []) else (g, [p]) :=
+  accAdd_table_start pm pid g p htab hp hpusi hq
+
+/-- stuffing alone looks like a complete unit as soon as there are more than 256 bytes of it: a longer run of
+stuffing-only packets is flushed (and parses to nothing) before the next unit starts -/
+theorem stuffing_complete_iff (l : Bytes) (h : ∀ b ∈ l, b = 0xff) : isPSICompleteBytes l = decide (256 < l.length) :=
+  complete_all_ff l h
+
+/-- **E3 (pool and `parseData` level) — every section once, in order.** The unit is what `writePSIData` produces for
+PAT/PMT sections `ss` that round-trip to `ss'` (C13 `psi_roundtrip`: `SectionsRT`), followed by 0xFF stuffing; cut at
+conformant points. The group flushed by the packet carrying the last section byte parses to the data of `ss'`. -/
+theorem table_unit_delivered (pm : ProgramMap) (pid : Nat) (htab : (pid == 0 || pm.has pid) = true) (hcat : pid ≠ 1)
+    (q : List Packet) (u : UnitPk) (hu : UnitOK u) (hq : QueueLeadsTo q u.first.header.continuityCounter)
+    (hon : u.first.header.pid = pid)
+    (a : List Packet) (pk : Packet) (b : List Packet) (hsplit : u.packets = a ++ [pk] ++ b)
+    (pf : Nat) (ss ss' : List PSISection) (stuffing : Bytes)
+    (W : WrittenUnit (concatPayload u.packets) pf ss ss' stuffing)
+    (hbefore : (concatPayload a).length < 1 + pf + ((ss.map secBytes).flatten).length)
+    (hat : 1 + pf + ((ss.map secBytes).flatten).length ≤ (concatPayload (a ++ [pk])).length)
+    (hcut : ConformantCut a pf (ss.map secBytes)) :
+    accRun pm pid q (a ++ [pk]) =
+      ((if a = [] then [] else q :: List.replicate (a.length - 1) []) ++ [a ++ [pk]], []) ∧
+    parseData (a ++ [pk]) .none pm =
+      .ok (psiToData { pointerField := (pf : Int), sections := ss' } (firstOf u.packets) pid) :=
+  written_unit_delivered pm pid htab hcat q u hu hq hon a pk b hsplit pf ss ss' stuffing W hbefore hat hcut
+
+/-! #### non-vacuity of E2 and E3: a PAT unit of two sections in four packets -/
+
+def exPatSec (progs : List PATProgram) : PSISection :=
+  mkPATSection 0 { sectionLength := 1, sectionSyntaxIndicator := true, tableID := 0 }
+    { currentNextIndicator := true, tableIDExtension := 7, versionNumber := 3 } { programs := progs, transportStreamID := 7 }
+
+def exSec1 : PSISection := exPatSec [{ programMapID := 0x1000, programNumber := 1 }]
+def exSec2 : PSISection := exPatSec [{ programMapID := 0x1001, programNumber := 2 }, { programMapID := 0x1002, programNumber := 3 }]
+
+def exTablePk (cc : Nat) (pusi : Bool) (payload : Bytes) : Packet :=
+  { header := { continuityCounter := cc, hasAdaptationField := false, hasPayload := true, payloadUnitStartIndicator := pusi,
+                pid := 0, transportErrorIndicator := false, transportPriority := false, transportScramblingControl := 0 },
+    payload := payload }
+
+/-- pointer_field 0, section 1 (16 bytes, ends at offset 17), section 2 (20 bytes, ends at offset 37), 3 stuffing bytes;
+chunks of 10, 15, 12 and 3 bytes: the last section byte is in the third packet -/
+def exP0 : Packet := exTablePk 15 true [0, 0, 176, 13, 0, 7, 199, 0, 0, 0]
+def exP1 : Packet := exTablePk 0 false [1, 240, 0, 80, 134, 190, 104, 0, 176, 17, 0, 7, 199, 0, 0]
+def exP2 : Packet := exTablePk 1 false [0, 2, 240, 1, 0, 3, 240, 2, 184, 178, 78, 179]
+def exP3 : Packet := exTablePk 2 false [0xff, 0xff, 0xff]
+def exUnit : UnitPk := ⟨exP0, [exP1, exP2, exP3]⟩
+
+example : UnitOK exUnit ∧ exUnit.first.header.pid = 0 ∧ exUnit.packets = [exP0, exP1] ++ [exP2] ++ [exP3] ∧
+    (∃ ss', WrittenUnit (concatPayload exUnit.packets) 0 [exSec1, exSec2] ss' [0xff, 0xff, 0xff]) ∧
+    (concatPayload [exP0, exP1]).length < 1 + 0 + (([exSec1, exSec2].map secBytes).flatten).length ∧
+    1 + 0 + (([exSec1, exSec2].map secBytes).flatten).length ≤ (concatPayload ([exP0, exP1] ++ [exP2])).length ∧
+    ConformantCut [exP0, exP1] 0 ([exSec1, exSec2].map secBytes) ∧ (concatPayload [exP3]).length ≤ 256 := by
+  have hsh : SyntaxHeaderOk { currentNextIndicator := true, tableIDExtension := 7, versionNumber := 3 } :=
+    ⟨by decide, by decide, by decide, by decide⟩
+  have r1 := pat_section_rt 0 { sectionLength := 1, sectionSyntaxIndicator := true, tableID := 0 } _
+    { programs := [{ programMapID := 0x1000, programNumber := 1 }], transportStreamID := 7 } rfl (by decide) hsh ⟨by decide, by decide⟩
+  have r2 := pat_section_rt 0 { sectionLength := 1, sectionSyntaxIndicator := true, tableID := 0 } _
+    { programs := [{ programMapID := 0x1001, programNumber := 2 }, { programMapID := 0x1002, programNumber := 3 }], transportStreamID := 7 }
+    rfl (by decide) hsh ⟨by decide, by decide⟩
+  have hrt : SectionsRT [exSec1, exSec2] _ := .cons r1 (.cons r2 .nil)
+  have hplain : ∀ cc pusi pl, cc < 16 → PlainPayload (exTablePk cc pusi pl) := by
+    intro cc pusi pl h
+    simp [PlainPayload, exTablePk, pktDI, h]
+  refine ⟨⟨hplain _ _ _ (by decide), rfl, ⟨hplain _ _ _ (by decide), rfl, rfl, hplain _ _ _ (by decide), rfl, rfl,
+    hplain _ _ _ (by decide), rfl, rfl, trivial⟩⟩, rfl, rfl, ⟨_, by decide, hrt, by simp, by simp, _,
+    writePSIData_bytes 0 (by decide) _ _ hrt, by decide +kernel⟩, by decide +kernel, by decide +kernel, ?_, by decide⟩
+  intro i hi hia j hj hjl
+  have hj1 : j = 1 := by simp at hjl; omega
+  subst hj1
+  have : i = 1 ∨ i = 2 := by simp at hia; omega
+  rcases this with rfl | rfl <;> decide +kernel
+
+/-- the excluded cut point evaluated: had the first packet ended with section 1 (17 bytes), it would have been flushed
+alone; the second section, arriving without a pointer_field in a group of its own, parses to nothing: it is lost
+without an error -/
+example : isPSIComplete [exTablePk 15 true [0, 0, 176, 13, 0, 7, 199, 0, 0, 0, 1, 240, 0, 80, 134, 190, 104]] = true ∧
+    (match parseData [exTablePk 0 false [0, 176, 17, 0, 7, 199, 0, 0, 0, 2, 240, 1, 0, 3, 240, 2, 184, 178, 78, 179]] .none [] with
+     | .ok ds => ds.isEmpty | _ => false) = true := by
+  constructor <;> decide +kernel
+
+end PSISide
 
 end Astits.C02
